@@ -22,6 +22,7 @@ mod compare;
 mod conc;
 mod damage;
 mod hist;
+mod clock;
 mod icept;
 mod real;
 mod treespec;
